@@ -95,6 +95,38 @@ func probeList() []probe {
 			},
 		},
 		{
+			// passthrough with merge_worker_count = 0 and a merge buffer larger than the chunks
+			// (batched merge): multi-chunk file, single-chunk file (its merged entry IS its
+			// chunk entry), empty file
+			name:  "passthrough-workers-zero",
+			ents:  []gen.Entry{reg("f", 5*64+7, 91), reg("single", 40, 93), reg("empty", 0, 95)},
+			bopts: blob.Opts{ChunkSize: 64, Compression: "gzip", Level: 1},
+			env: func(e *envSpec) {
+				e.cfg.PassThrough, e.cfg.DirectoryCacheConfig.Direct = true, true
+				e.cfg.MergeBufferSize, e.cfg.MergeWorkerCount = 400<<20, 0
+			},
+		},
+		{
+			// passthrough with merge_buffer_size = 0 (every chunk is "large": sequential merge)
+			name:  "passthrough-buffer-zero",
+			ents:  []gen.Entry{reg("f", 5*64+7, 97), reg("empty", 0, 99)},
+			bopts: blob.Opts{ChunkSize: 64, Compression: "gzip", Level: 1},
+			env: func(e *envSpec) {
+				e.cfg.PassThrough, e.cfg.DirectoryCacheConfig.Direct = true, true
+				e.cfg.MergeBufferSize, e.cfg.MergeWorkerCount = 0, 2
+			},
+		},
+		{
+			// passthrough with a negative merge_worker_count (may kill the process: near the end)
+			name:  "passthrough-workers-negative",
+			ents:  []gen.Entry{reg("f", 5*64+7, 101)},
+			bopts: blob.Opts{ChunkSize: 64, Compression: "gzip", Level: 1},
+			env: func(e *envSpec) {
+				e.cfg.PassThrough, e.cfg.DirectoryCacheConfig.Direct = true, true
+				e.cfg.MergeBufferSize, e.cfg.MergeWorkerCount = 256, -1
+			},
+		},
+		{
 			// passthrough with a merge buffer that is NOT a multiple of the chunk size (last:
 			// on the unchanged tree this one kills the process)
 			name:  "passthrough-misaligned",
@@ -147,7 +179,7 @@ func probesStage(r *vf.Run) {
 				if p.env != nil {
 					p.env(e)
 				}
-				e.desc = fmt.Sprintf("%s probe:%s regchunk=1000 passthrough=%v mergebuf=%d", store, p.name, e.cfg.PassThrough, e.cfg.MergeBufferSize)
+				e.desc = fmt.Sprintf("%s probe:%s regchunk=1000 passthrough=%v mergebuf=%d workers=%d", store, p.name, e.cfg.PassThrough, e.cfg.MergeBufferSize, e.cfg.MergeWorkerCount)
 				runEnv(r, c, e, si)
 			}
 		}
